@@ -59,3 +59,7 @@ def run(ctx):
                 rep.violation('NO-CAST', '%s|cast-to-%s' % (fn.key, rv['to']), 'integer `as` cast on the precision-to-scale slice (must be checked conversions): to %s' % rv['to'], fn.where(st['line']))
     if ncast == 0:
         rep.ok('NO-CAST', 'with_precision_round:no-int-cast', 'no integer `as` cast in with_precision_round or its closures (%d bodies)' % len(bodies))
+    if ctx.tier == 'thorough':
+        from rules import witness
+        nw = witness.run(rep, r'^W[12]')
+        rep.floor('type-level witnesses', nw, 2)
